@@ -250,11 +250,17 @@ def check_wire(spec, res):
     rows = driver.Allocator(schedule).allocations
     v = None
     seen = collections.Counter()
-    for col in range(len(rows[0])):
+    if len({len(r) for r in rows}) != 1:
+        v = ("matrix-not-rectangular", f"row lengths {[len(r) for r in rows]}")
+    for col in range(len(rows[0]) if v is None else 0):
         allocs = [(cid, row[col]) for cid, row in enumerate(rows) if isinstance(row[col], driver.TaskAllocation)]
         if not allocs:
             continue
-        r = loadgen.run_worker(allocs, lambda entry: {"service_time": 1.0, "body": {"ok": True}})
+        try:
+            r = loadgen.run_worker(allocs, lambda entry: {"service_time": 1.0, "body": {"ok": True}})
+        except Exception as ex:  # noqa
+            v = ("worker-raises", f"column {col}: {type(ex).__name__}: {ex}")
+            break
         if r.error is not None or r.loop_errors:
             v = ("worker-raises", f"column {col}: {type(r.error).__name__ if r.error else ''}: {r.error} {r.loop_errors[:1]}")
             break
